@@ -99,6 +99,8 @@ class Exec:
         self.fields_width = fields_width    # field index -> bit width of the atomic
         self.tree = Tree()
         self.box_counter = 0
+        self.fresh = {}          # environment symbols introduced for stubbed calls: name -> SMT sort
+        self.keys = []           # map keys looked up (environment-stub mode, C20 wrappers)
 
     # ---------------------------------------------------------------- operands
     def ty_width(self, ty):
@@ -126,6 +128,11 @@ class Exec:
                 return BV(WIDTH[ty], bv(WIDTH[ty], v))
         if s.startswith("ZeroSized"):
             return Val("opaque", tag="zst")
+        m = re.match(r'^"(.*)"$', s)
+        if m:
+            return Val("str", text=m.group(1))
+        if "::promoted[" in s or s.startswith("std::option::Option::<") and s.endswith("::None"):
+            return Val("opaque", tag="promoted")
         raise Unsupported("constant " + s)
 
     def operand(self, s, env):
@@ -191,7 +198,10 @@ class Exec:
             if w == a.w:
                 return a
             if w < a.w:
-                return BV(w, "((_ extract %d 0) %s)" % (w - 1, a.s))
+                r = BV(w, "((_ extract %d 0) %s)" % (w - 1, a.s))
+                r.signed = m.group(2).startswith("i")
+                r.cast_from = a
+                return r
             signed = False   # only unsigned sources occur here; a signed source would be sign-extended
             return BV(w, "((_ zero_extend %d) %s)" % (w - a.w, a.s))
         m = re.match(r"^(.*) as .* \(Transmute\)$", rhs)
@@ -213,6 +223,29 @@ class Exec:
         m = re.match(r"^\[(.*)\]$", rhs)
         if m:
             return Val("array", items=[self.operand(x, env) for x in split_top(m.group(1))])
+        m = re.match(r"^&(_\d+)$", rhs)
+        if m:
+            return env[m.group(1)]
+        m = re.match(r"^(?:std::option::)?Option::<.*>::None$", rhs)
+        if m:
+            return Val("opt", some="false", val=Val("opaque", tag="none"), some_idx=1, some_name="Some")
+        m = re.match(r"^(?:std::option::)?Option::<.*>::Some\((.*)\)$", rhs)
+        if m:
+            return Val("opt", some="true", val=self.operand(m.group(1), env), some_idx=1, some_name="Some")
+        m = re.match(r"^erltf::OwnedTerm::Atom\((.*)\)$", rhs)
+        if m:
+            a = self.operand(m.group(1), env)
+            return Val("keyterm", key=getattr(a, "text", None))
+        m = re.match(r"^\((.*)\)$", rhs)
+        if m and re.match(r"^(copy|move|const) ", m.group(1).strip()):
+            return Val("tuple", items=[self.operand(x, env) for x in split_top(m.group(1))])
+        m = re.match(r"^([A-Za-z_][\w:]*) \{ (.*) \}$", rhs)
+        if m:
+            fields = {}
+            for part in split_top(m.group(2)):
+                k, v = part.split(":", 1)
+                fields[k.strip()] = self.operand(v.strip(), env)
+            return Val("struct", name=m.group(1), fields=fields)
         if re.match(r"^(copy|move|const) ", rhs):
             return self.operand(rhs, env)
         raise Unsupported("rvalue " + rhs)
@@ -429,6 +462,8 @@ class Exec:
             if v.kind == "lockresult":
                 # assumption (stated in evidence): the mutex is never poisoned
                 return Val("variant", variant="Continue", index=0, fields=[Val("guard", field=v.field)]), parent, pc, hook, heap
+            if v.kind == "opt":
+                return Val("opt", some=v.some, val=v.val, some_idx=0, some_name="Continue"), parent, pc, hook, heap
             raise Unsupported("Try::branch on " + repr(v))
         m = re.match(r"^(?:std::sync::atomic::)?Atomic::<(\w+)>::(load|store|fetch_add|fetch_sub|swap|fetch_or|fetch_and)$", c)
         if m:
@@ -484,21 +519,90 @@ class Exec:
                 raise Unsupported("integer method " + op)
             return r, parent, pc, hook, heap
         m = re.match(r"^<(\w+) as (?:std::convert::)?TryFrom<(\w+)>>::try_from$", c)
-        if m and m.group(1) in WIDTH and m.group(2) in WIDTH and m.group(1).startswith("u") and m.group(2).startswith("u"):
+        if m and m.group(1) in WIDTH and m.group(2) in WIDTH:
             wt, wf = WIDTH[m.group(1)], WIDTH[m.group(2)]
+            st, sf = m.group(1).startswith("i"), m.group(2).startswith("i")
             a = A(0)
             if a.kind != "bv" or a.w != wf:
                 raise Unsupported("try_from operand")
-            if wt >= wf:
-                v = a if wt == wf else BV(wt, "((_ zero_extend %d) %s)" % (wt - wf, a.s))
-                return Val("opt", some="true", val=v, some_idx=0, some_name="Ok"), parent, pc, hook, heap
-            return (Val("opt", some="(bvule %s %s)" % (a.s, bv(wf, (1 << wt) - 1)), val=BV(wt, "((_ extract %d 0) %s)" % (wt - 1, a.s)),
-                        some_idx=0, some_name="Ok"), parent, pc, hook, heap)
+            if wt < wf:
+                v = BV(wt, "((_ extract %d 0) %s)" % (wt - 1, a.s))
+            elif wt == wf:
+                v = BV(wt, a.s)
+            else:
+                v = BV(wt, "((_ %s %d) %s)" % ("sign_extend" if sf else "zero_extend", wt - wf, a.s))
+            v.signed, v.cast_from = st, a
+            # in range of the target type?
+            lo = -(1 << (wt - 1)) if st else 0
+            hi = (1 << (wt - 1)) - 1 if st else (1 << wt) - 1
+            conds = []
+            if sf:
+                if lo > -(1 << (wf - 1)):
+                    conds.append("(bvsge %s %s)" % (a.s, bv(wf, lo)))
+                if hi < (1 << (wf - 1)) - 1:
+                    conds.append("(bvsle %s %s)" % (a.s, bv(wf, hi)))
+            else:
+                if hi < (1 << wf) - 1:
+                    conds.append("(bvule %s %s)" % (a.s, bv(wf, hi)))
+            ok = "(and true %s)" % " ".join(conds)
+            return Val("opt", some=ok, val=v, some_idx=0, some_name="Ok"), parent, pc, hook, heap
+        if re.match(r"^(std::result::)?Result::<.*>::ok$", c):
+            v = A(0)
+            if v.kind != "opt":
+                raise Unsupported("Result::ok on " + repr(v))
+            return Val("opt", some=v.some, val=v.val, some_idx=1, some_name="Some"), parent, pc, hook, heap
         if re.match(r"^(std::result::)?Result::<.*>::unwrap_or$|^(std::option::)?Option::<.*>::unwrap_or$", c):
             v, d = A(0), A(1)
             if v.kind != "opt" or d.kind != "bv" or v.val.kind != "bv":
                 raise Unsupported("unwrap_or on " + repr(v))
             return BV(d.w, "(ite %s %s %s)" % (v.some, v.val.s, d.s)), parent, pc, hook, heap
+        # ---- environment stubs (C20 wrappers): the term is an arbitrary map; lookups return arbitrary values
+        def fresh(name, sort):
+            self.fresh[name] = sort
+            return name
+        if re.search(r"OwnedTerm::elixir_struct_module$", c):
+            return Val("opaque", tag="struct_module"), parent, pc, hook, heap
+        if re.search(r"<std::option::Option<&str> as PartialEq>::(ne|eq)$", c):
+            b = fresh("env_struct_name_matches", "Bool")
+            return BOOL(b if c.endswith("::eq") else "(not %s)" % b), parent, pc, hook, heap
+        if re.search(r"OwnedTerm::as_map$", c):
+            return Val("opt", some=fresh("env_is_map", "Bool"), val=Val("opaque", tag="map"), some_idx=1, some_name="Some"), parent, pc, hook, heap
+        if re.search(r"erltf::Atom::new::<&str>$|Atom::new::<&str>$", c):
+            return A(0), parent, pc, hook, heap
+        if re.search(r"BTreeMap::<.*>::get::<.*>$", c):
+            k = A(1)
+            key = getattr(k, "key", None)
+            if key is None:
+                raise Unsupported("map lookup with a non-constant key")
+            if key not in self.keys:
+                self.keys.append(key)
+            return (Val("opt", some=fresh("env_has_%s" % key, "Bool"), val=Val("field", key=key), some_idx=1, some_name="Some"),
+                    parent, pc, hook, heap)
+        if re.search(r"OwnedTerm::as_integer$", c):
+            f = A(0)
+            if f.kind != "field":
+                raise Unsupported("as_integer on " + repr(f))
+            nm = f.key.replace(".", "_")
+            return (Val("opt", some=fresh("env_isint_%s" % nm, "Bool"), val=BV(64, fresh("env_val_%s" % nm, "(_ BitVec 64)")), some_idx=1, some_name="Some"),
+                    parent, pc, hook, heap)
+        if re.search(r"OwnedTerm::(as_erlang_string|as_atom|as_binary|as_string|as_str|as_float|atom_name)$", c):
+            f = A(0)
+            nm = getattr(f, "key", "x").replace(".", "_")
+            return (Val("opt", some=fresh("env_isother_%s_%d" % (nm, len(self.fresh)), "Bool"), val=Val("opaque", tag="nonint"), some_idx=1, some_name="Some"),
+                    parent, pc, hook, heap)
+        if re.search(r"OwnedTerm::as_2_tuple$", c):
+            f = A(0)
+            if f.kind != "field":
+                raise Unsupported("as_2_tuple on " + repr(f))
+            nm = f.key.replace(".", "_")
+            return (Val("opt", some=fresh("env_is2tuple_%s" % nm, "Bool"),
+                        val=Val("tuple", items=[Val("field", key=f.key + ".0"), Val("field", key=f.key + ".1")]), some_idx=1, some_name="Some"),
+                    parent, pc, hook, heap)
+        if re.search(r"as Try>::branch$", c) and A(0).kind == "opt":
+            v = A(0)
+            return Val("opt", some=v.some, val=v.val, some_idx=0, some_name="Continue"), parent, pc, hook, heap
+        if re.search(r"as FromResidual<.*>>::from_residual$", c):
+            return Val("opt", some="false", val=Val("opaque", tag="none"), some_idx=1, some_name="Some"), parent, pc, hook, heap
         if re.search(r"<erltf::Atom as Clone>::clone$|<Atom as Clone>::clone$", c):
             return Val("opaque", tag="atom"), parent, pc, hook, heap
         if re.search(r"ExternalPid::new$", c):
